@@ -441,7 +441,7 @@ pub fn run_post_case(b: &Body, info: &mut CaseInfo) -> Result<(), Failure> {
 pub const CONSTRUCTS: &[&str] = &[
     "paren", "array", "tuple", "call", "index", "access", "not", "neg", "bitnot", "template", "if", "let", "cond", "let-bindings", "wide-array", "member-of", "strcat-args", "long-string",
     "long-identifier", "whitespace", "comment", "or-regex", "and-eq", "chain:+", "chain:*", "chain:-", "chain:&&", "chain:||", "chain:xor", "chain:|", "chain:&", "chain:^", "chain:<<",
-    "chain:==", "chain:/", "index-chain-on-call", "many-rules",
+    "chain:==", "chain:/", "index-chain-on-call", "call-chain", "call-chain-on-call", "mixed-postfix-chain", "many-rules",
 ];
 
 pub fn construct(kind: &str, n: usize) -> String {
@@ -476,6 +476,9 @@ pub fn construct(kind: &str, n: usize) -> String {
         "or-regex" => (0..n.max(1)).map(|i| format!("request.target.host =~ \"a{}\"", i)).collect::<Vec<_>>().join(" || "),
         "and-eq" => (0..n.max(1)).map(|i| format!("request.target.port != {}", i)).collect::<Vec<_>>().join(" && "),
         "index-chain-on-call" => format!("split(\"a\",\"b\"){} == \"a\"", "[0]".repeat(n)),
+        "call-chain" => format!("x{} == 1", "(1)".repeat(n)),
+        "call-chain-on-call" => format!("to_string(1){} == \"1\"", "(1)".repeat(n)),
+        "mixed-postfix-chain" => format!("request{} == 1", ".target(1)[0]".repeat(n / 3 + 1)),
         "many-rules" => "true".to_string(),
         k if k.starts_with("chain:") => {
             let op = &k[6..];
@@ -502,7 +505,7 @@ impl SubCheck for Ladder {
         "ladder"
     }
     fn rule(&self) -> String {
-        format!("bounded enumeration on the real binary: {} syntactic constructs (brackets, arrays, tuples, calls, index / member chains, unary chains, nested templates, if / let / ?: nests, wide arrays, long literals / identifiers / blanks / comments, realistic || and && lists, a chain of every binary operator, many rules) at sizes 1 ... 16384 (thorough: ... 262144) with the rungs around the parser limits (15, 16, 17, 255, 256, 257); each filter is (1) loaded with `redproxy-rs -t` from a configuration file (main thread) and (2) posted to /api/rules of a running proxy (worker thread), followed by a request that evaluates the rules; oracle: exit 0 or error exit with a message within 30 s / an HTTP status within 60 s, the process never dies by a signal or panics, the API and the listener answer afterwards; non-trivial = size >= 16", CONSTRUCTS.len())
+        format!("bounded enumeration on the real binary: {} syntactic constructs (brackets, arrays, tuples, calls, index / member / call chains, unary chains, nested templates, if / let / ?: nests, wide arrays, long literals / identifiers / blanks / comments, realistic || and && lists, a chain of every binary operator, many rules) at sizes 1 ... 16384 (thorough: ... 262144) with the rungs around the parser limits (15, 16, 17, 255, 256, 257); each filter is (1) loaded with `redproxy-rs -t` from a configuration file (main thread) and (2) posted to /api/rules of a running proxy (worker thread), followed by a request that evaluates the rules; oracle: exit 0 or error exit with a message within 30 s / an HTTP status within 60 s, the process never dies by a signal or panics, the API and the listener answer afterwards; non-trivial = size >= 16", CONSTRUCTS.len())
     }
     fn run(&self, part: &mut Part) {
         let sizes: Vec<usize> = if part.tier == vcore::Tier::Quick { vec![1, 8, 16, 17, 64, 255, 256, 257, 600, 2048, 16384] } else { vec![1, 2, 4, 8, 15, 16, 17, 32, 64, 128, 255, 256, 257, 400, 512, 1024, 4096, 16384, 65536, 262144] };
